@@ -258,6 +258,11 @@ func checkFault(c faultCase) *vlib.Failure {
 		// whatever the values look like, some call has to report it
 		return vlib.Failf("failed-sync-not-reported", "%s: the Sync after the sabotage (%v) failed for certain, yet every Push, Finalise and Pull reported success", what, res.sc.Applied())
 	}
+	if c.Fault.Step == "write-before-tempfile" && c.Fault.Action == "rmdir" && c.Fault2 == nil && len(res.sc.Applied()) > 0 && strings.Contains(res.sc.Applied()[0], "removed ") && res.out.FirstError == nil {
+		// the sorter's directory was gone when the run file was to be created in it: that creation failed
+		// for certain, wherever the values went instead
+		return vlib.Failf("failed-creation-not-reported", "%s: the run file could not be created in the sorter's directory (%v), yet every Push, Finalise and Pull reported success", what, res.sc.Applied())
+	}
 	if res.residue != "" {
 		return vlib.Failf("cleanup-leaves-directory-after-fault", "%s: CleanUp returned %v and the directory %s still exists (sabotage applied: %v)", what, res.cleanupErr, res.residue, res.sc.Applied())
 	}
